@@ -13,6 +13,8 @@ fn main()
 	{
 		Some("error-codes") => generated::error_codes::run(),
 		Some("value-types") => generated::value_types::run(&args[2..]),
+		Some("resolver-eval") => generated::value_types::run_resolver(),
+		Some("lint-eval") => generated::value_types::run_lint(),
 		Some("lexdiff") => lexdiff::run(&args[2..]),
 		Some("lexobs") => lexdiff::run_obs(),
 		_ =>
